@@ -1,6 +1,7 @@
 import PqModel.RleLemmas
 import PqModel.BitPackedLemmas
 import PqModel.RleDecodeLemmas
+import PqModel.RlePackLemmas
 
 /-! # C04 (part rle) — the RLE / bit-packed hybrid is lossless and matches the format
 
@@ -464,6 +465,14 @@ theorem int32_unpack_kernel (w n : Nat) (p : List Nat) (hw : w ≤ 32) (hb : ∀
   goUnpackInt32_eq w n p hw hb hn
 
 example : (17 : Nat) ≤ 32 ∧ (∀ b ∈ [1, 2, 3, 255, 0, 9, 9, 9, 9], b < 256) ∧ 4 * 17 ≤ 8 * [1, 2, 3, 255, 0, 9, 9, 9, 9].length := by decide
+
+/-- `bitpack.Pack` for int32 (portable `packInt32Default`: 64-bit accumulator flushed 32 bits at a
+time, then the tail bytes), as called by `encodeInt32BitpackDefault`, equals the `packBytes` the
+encoder mirror uses, for every width ≤ 32 and every value list. -/
+theorem int32_pack_kernel (w : Nat) (hw : w ≤ 32) (src : List Nat) : goPackInt32 w src = packBytes w src :=
+  goPackInt32_eq w hw src
+
+example : (32 : Nat) ≤ 32 := by decide
 
 /-! ## Legacy BIT_PACKED levels (encoding/bitpacked) -/
 
